@@ -45,6 +45,10 @@ class Builder:
         self.bobj = {}       # block AST nodes that carry a "bid" map to one Python block object per pool (shared operands)
         self.enum_spelling = enum_spelling
         self.continuous_env = continuous_env   # see sim.contin
+        # one ElseLevel object reused by every derived factor whose else level has the same name and weight
+        # (`other = ElseLevel("other")` written once by a user), in half of the designs (a pure function of the AST)
+        self.share_else = sum(len(f.get("levels", ())) for f in ast["factors"]) % 2 == 0
+        self.else_obj = {}
 
     def factor(self, fid):
         if fid in self.fobj:
@@ -58,7 +62,13 @@ class Builder:
             levels = []
             for l in f["levels"]:
                 if l.get("else"):
-                    levels.append(ElseLevel(l["name"], l.get("weight", 1)))
+                    key = (l["name"], l.get("weight", 1))
+                    if not self.share_else:
+                        levels.append(ElseLevel(*key))
+                    else:
+                        if key not in self.else_obj:
+                            self.else_obj[key] = ElseLevel(*key)
+                        levels.append(self.else_obj[key])
                     continue
                 pred = make_predicate(w["width"], [_norm_row(r, w["width"]) for r in l["table"]])
                 if w["kind"] == "within":
